@@ -3,7 +3,7 @@ CONSTANTS Tabs = {1, 2}
   Classes = {0, 1, 2}
   Ptrs = {1, 2}
   Vals = {1, 2, 3}
-  MaxSteps = 7
+  MaxSteps = 4
   FlagWords = {0, 1, 2, 3, 4, 7}
 INVARIANTS DeadIsEmpty IterInv WellFormed AtMostOnce NoDangling
 CONSTRAINT Bound
